@@ -100,6 +100,18 @@ def gen_cases(rnd, fam, n_cases):
     return all_cases
 
 
+# the domains a sweep variable can be given: whatever the values are, the generated classes must satisfy the contracts
+DOMAINS = [[1, 2], [1.0, 2.0, float("inf")], [float("nan")], [float("-inf"), 0], ["a", None, True], [[1, 2], [3]], [{"k": 1, "j": [2]}],
+           {"lo": 0.0, "hi": 1.0, "steps": 3}, {"lo": 1.0, "hi": 10.0, "steps": 2, "scale": "log", "endpoint": False},
+           {"values": [10 ** 30, -1]}, [1, 2], ["µ", "x y"], [0], [1e308, 5e-324]]
+_domain_counter = [0]
+
+
+def next_domain():
+    _domain_counter[0] += 1
+    return DOMAINS[_domain_counter[0] % len(DOMAINS)]
+
+
 def spec_of(fam, name, wrap, coll, vars_, ck):
     d = fam[name]
     spec = {"processor": name}
@@ -107,7 +119,7 @@ def spec_of(fam, name, wrap, coll, vars_, ck):
     if wrap == "slice":
         spec["processor"] = f"slice:{name}:{coll}"
     if wrap == "sweep":
-        sw = {"parameters": {}, "variables": {v: [1, 2] for v in vars_}}
+        sw = {"parameters": {}, "variables": {v: next_domain() for v in vars_}}
         target = [p for p in d["params"]][:1]
         for p in target:
             sw["parameters"][p] = vars_[0]
